@@ -947,8 +947,21 @@ impl VM {
             self.push(Rc::new(P(Empty)), pos)?;
             return Ok(());
         }
+        // Describe the target by its shape only. Dumping its values would leak
+        // e.g. every environment variable when `env.NAME` is not set.
+        let target = match left.as_ref() {
+            C(Tuple(flds, _)) => format!(
+                "tuple with fields [{}]",
+                flds.iter()
+                    .map(|(k, _)| k.as_ref())
+                    .collect::<Vec<&str>>()
+                    .join(", ")
+            ),
+            C(List(elems, _)) => format!("list of {} elements", elems.len()),
+            other => other.type_name().to_string(),
+        };
         Err(Error::new(
-            format!("Invalid selector index: {:?} target: {:?}", right, left).into(),
+            format!("Invalid selector index: {:?} target: {}", right, target).into(),
             pos,
         ))
     }
